@@ -31,6 +31,7 @@ const ZXSTKJT_KEMPSTON: u32 = 1;
 const ZXSTM_KEMPSTON: u32 = 2;
 
 const ZXSTRF_COMPRESSED: u32 = 1;
+const ZXST_128K_RAM_PAGES: u8 = 8;
 
 const ZXST_HEADER_SIZE: usize = 8; // The zx-state header
 const ZXST_BLOCK_HEADER_SIZE: usize = 8; // The header for each block
@@ -335,8 +336,11 @@ fn process_ramp_block<H: Host>(
             5 => 0,
             2 => 1,
             0 => 2,
-            _ => page_num,
+            // These machines have no other pages
+            _ => return Err(SnapshotLoadError::InvalidSZXFile.into()),
         };
+    } else if page_num >= ZXST_128K_RAM_PAGES {
+        return Err(SnapshotLoadError::InvalidSZXFile.into());
     }
 
     let page_data = emulator.controller.memory.ram_page_data_mut(page_num);
